@@ -384,6 +384,8 @@ class Prop(fw.PropBase):
         '@NS500414:628:H7YVNBGXC:1:11101:15963:1046 1:N:0:GTGAAA',        # form 1, index sequence
         '@NS500414:628:H7YVNBGXC:1:11101:15963:1046 2:Y:18:12',           # form 1, numeric index
         '@NS500414:628:H7YVNBGXC:1:11101:15963:1046 1:N:0:GTGAAA+CCTTAA',  # form 1, dual index (D7)
+        '@NS500414:628:H7YVNBGXC:1:11101:15963:1046 1:N:0:01',             # form 1, numeric index with a leading zero
+        '@NS500414:628:H7YVNBGXC:1:11101:15963:1046 2:N:0:007',
         '@NS500413:32:H14TKBGXX:2:11101:16448:1664 1:N:0::',               # form 2
         '@NS500413:32:H14TKBGXX:2:11101:16448:1664 1:N:0',                 # form 2 without the trailing ::
         '@M0-1_x:7:000000000-ABCDE:1:1101:2:3',                            # form 3
@@ -398,7 +400,8 @@ class Prop(fw.PropBase):
         rng = self.rng
         f = [self.rstr(SAFE, 1, 10) for _ in range(3)] + [str(rng.randint(1, 8)), str(rng.randint(1101, 21612)),
                                                          str(rng.randint(1, 30000)), str(rng.randint(1, 30000))]
-        idx = rng.choice(['GTGAAA', 'GTGAAA', 'CGATGT', 'TTAGGC', 'GTGAAA', '0', '42', 'ACGT+TTGA', 'N', 'GTGAAT', 'CGATGT'])
+        idx = rng.choice(['GTGAAA', 'GTGAAA', 'CGATGT', 'TTAGGC', 'GTGAAA', '0', '42', 'ACGT+TTGA', 'N', 'GTGAAT', 'CGATGT', '01', '007',
+                          '00', '1'])
         form = rng.choice([1, 1, 1, 2, 3, 4])
         base = '@' + ':'.join(f)
         if form == 1:
@@ -415,6 +418,8 @@ class Prop(fw.PropBase):
         for h in self.HEADERS:
             for parser in (True, False):
                 cases.append({'f': 'raw', 'header': h, 'parser': parser, 'library': 'LIB_a-1', 'reason': None})
+        for lib in ('', 'x', None):
+            cases.append({'f': 'raw', 'header': self.HEADERS[0], 'parser': True, 'library': lib, 'reason': None})
         n = 60 if self.tier == 'quick' else 4000
         for _ in range(n):
             h = self.rand_header()
@@ -422,7 +427,7 @@ class Prop(fw.PropBase):
                 i = rng.randint(0, len(h))
                 h = h[:i] + rng.choice([':', ' ', '_', ';', '::', '']) + h[i + rng.randint(0, 1):]
             cases.append({'f': 'raw', 'header': h, 'parser': rng.random() < 0.7,
-                          'library': rng.choice([None, 'LIB', self.rstr(SAFE, 1, 30)]),
+                          'library': rng.choice([None, 'LIB', self.rstr(SAFE, 1, 30), '', self.rstr(SAFE, 1, 1)]),
                           'reason': rng.choice([None, None, 'bc_not_matching'])})
         return cases
 
@@ -465,12 +470,16 @@ class Prop(fw.PropBase):
         cases = []
         per = 3 if self.tier == 'quick' else 120
         for name, si in sorted(info.items()):
-            for rep in range(per):
+            forced = {'CUSTOM_U0BC3': [{'second': 'ILLU'}, {'header': self.HEADERS[6]}, {'library': ''}],
+                      'CUSTOM_BC0U8': [{'second': 'SCARC8R2'}, {'header': self.HEADERS[7], 'library': 'x'}],
+                      'NLAIII384C8U3': [{'second': 'ILLU', 'library': ''}],
+                      'ILLU': [{'library': ''}, {'header': self.HEADERS[6]}]}.get(name, [])
+            for rep, force in enumerate([None] * per + forced):
                 n = 2 if not si['single'] else 1
                 seqs = [self.rstr('ACGT', 70, 110) for _ in range(n)]
                 if rng.random() < 0.15:
                     seqs = [s[:40] + s[40:].replace('A', 'N', 1) for s in seqs]
-                hd1 = bool(si['barcodes']) and rng.random() < 0.25
+                hd1 = bool(si['barcodes']) and rng.random() < 0.25 and not force
                 if si['barcodes']:
                     bc = rng.choice(si['barcodes'])
                     if hd1:      # one sequencing error in the cell barcode, corrected by the -hd 1 expansion
@@ -493,19 +502,36 @@ class Prop(fw.PropBase):
                     quals.append(q)
                 hmode = rng.random()
                 if hmode < 0.35:
-                    h = rng.choice(self.HEADERS[:6])
+                    h = rng.choice(self.HEADERS[:8])
                 else:
                     h = self.rand_header()
-                if rep == 0:
+                if force and 'header' in force:
+                    h = force['header']
+                elif rep == 0:
                     h = self.HEADERS[0]
                 hs = [h, h.replace(' 1:', ' 2:', 1)][:n]
-                lib = rng.choice(['LIB', 'APKS1-P15-1-1_1', self.rstr(SAFE, 1, 40)])
+                lib = rng.choice(['LIB', 'APKS1-P15-1-1_1', self.rstr(SAFE, 1, 40), '', self.rstr(SAFE, 1, 1)])
+                if force and 'library' in force:
+                    lib = force['library']
                 nf = len(re.split('[: ]', h.replace('::', '')))
                 c = {'f': 'chain', 'strategy': name, 'parser': rng.random() < (0.85 if nf == 11 else 0.15), 'library': lib,
                      'records': [[hs[i], seqs[i], '+', quals[i]] for i in range(n)]}
                 if hd1:
                     c['ctx'], c['parser'] = 'hd1', True
-                if rng.random() < 0.3:     # long library names: first header of exactly 248..258 characters
+                if force:
+                    c['parser'] = True
+                if si.get('plain') and si.get('umi') and n == 2 and (rng.random() < 0.3 if not force else bool(force.get('second'))):
+                    # second pass with a strategy that does not extract a UMI: the bulk strategy, or scartrace R2
+                    # (its barcode put at the start of the untouched mate)
+                    c['second'] = force['second'] if force else rng.choice(['ILLU', 'SCARC8R2'])
+                    s2 = info.get('SCARC8R2')
+                    if c['second'] == 'SCARC8R2' and s2 and s2['barcodes'] and si['slices'] and all(x[0] == 0 for x in si['slices']) \
+                            and si['umi'][0] == 0:
+                        b2 = rng.choice(s2['barcodes'])
+                        c['records'][1][1] = b2 + c['records'][1][1][len(b2):]
+                    else:
+                        c['second'] = 'ILLU'
+                if rng.random() < 0.3 and not force:     # long library names: first header of exactly 248..258 characters
                     c['target_len'] = rng.randint(248, 258)
                 cases.append(c)
         return cases
@@ -821,7 +847,7 @@ class Prop(fw.PropBase):
                     self.cov['specification_on_chain'] = {'chains': nspec, 'violation': w['what'][:300]}
                     raise fw.Broken('specification', w['what'])
         self.cov['specification_on_chain'] = {
-            'chains': nspec, 'reads_with_RQ_and_RX_compared_to_the_original_input_read': orig_rq,
+            'chains': nspec, 'double_demultiplexing_chains': sum(1 for c, r in zip(cases, impl) if c['f'] == 'chain' and c.get('second') and 'stores' in r), 'reads_with_RQ_and_RX_compared_to_the_original_input_read': orig_rq,
             'reads_with_corrected_barcode(bc != BC)': corrected, 'violations': 0}
 
     def sample_idx(self, cases):
@@ -980,9 +1006,11 @@ class Prop(fw.PropBase):
         letters = _string.ascii_letters
         self.chain_stats = [0, 0]
         for j, st in enumerate(r['stores']):
+            hd = r['headers'][j]
+            if st is None and 'header' in hd and all(it.count(':') == 1 for it in hd['header'].split(';')):
+                st = [[it.split(':')[0], 's', it.split(':')[1]] for it in hd['header'].split(';')]   # bulk strategy: fastq text
             if st is None or not self.spec_wf(st):
                 continue
-            hd = r['headers'][j]
             exp_h = ';'.join('%s:%s' % (k, v) for k, t, v in st if not tagdef[k][1])
             what = None
             if 'error' in hd:
@@ -1011,12 +1039,26 @@ class Prop(fw.PropBase):
                         exp[k] = sf(v)
                 si = info.get(c['strategy'], {})
                 u = si.get('umi')
+                if c.get('second') and info.get(c['second'], {}).get('umi'):
+                    u = None             # the second pass extracts its own UMI
+                oh = c['records'][j][0] if j < len(c['records']) else ''
+                of = re.split('[: ]', oh)
+                if oh.startswith('@') and ';' not in oh and len(of) == 11:
+                    # the ORIGINAL Illumina header: coordinates and sequencing index come back
+                    for k7, v7 in zip(('Is', 'RN', 'Fc', 'La', 'Ti', 'CX', 'CY'), of[:7]):
+                        exp[k7] = sf(v7)
+                    exp['aa'] = sf(of[10])
+                    if c.get('parser', True) and of[10].isdigit():
+                        exp['aA'] = sf(of[10])       # a numeric index is its own corrected index
+                        exp['aI'] = sf(of[10])
+                if r.get('library') is not None and ';' not in oh:
+                    exp['LY'] = sf(r['library'])
                 if u and u[0] < len(c['records']):
                     useq = c['records'][u[0]][1][u[1]:u[1] + u[2]]
                     q = c['records'][u[0]][3][u[1]:u[1] + u[2]]
                     # strategies that run UmiBarcodeDemuxMethod.demultiplex unchanged must restore the UMI of the input
                     # read; the others are held to it when the stored RX is that slice
-                    if si.get('plain') or ('RQ' in d and useq == d.get('RX')):
+                    if si.get('plain') or c.get('second') or ('RQ' in d and useq == d.get('RX')):
                         exp['RX'] = sf(useq)
                         exp['RQ'] = ''.join(chr(min(max(ord(x), 33), 84)) for x in q)   # original characters, saturated
                         self.chain_stats[0] += 1
@@ -1035,7 +1077,8 @@ class Prop(fw.PropBase):
                     if r['reads'][j]['name'] != en:
                         what = ('query name', r['reads'][j]['name'], en)
             if what:
-                return {'key': 'roundtrip:' + what[0], 'what': 'strategy %s, library %r, read %d: %s after demultiplex -> header -> digest '
-                        'is %r, expected %r' % (c['strategy'], r.get('library'), j + 1, what[0], what[1], what[2]),
+                return {'key': 'roundtrip:' + what[0], 'what': 'strategy %s%s, library %r, read %d: %s after demultiplex -> header -> digest '
+                        'is %r, expected %r' % (c['strategy'], (' then demultiplexed again with ' + c['second']) if c.get('second') else '',
+                                                r.get('library'), j + 1, what[0], what[1], what[2]),
                         'input': c, 'impl': what[1], 'expected': what[2]}
         return None
